@@ -374,6 +374,10 @@ pub fn gen_c12(rng: &mut Rng, tier: Tier) -> NetProgram {
             spec.beats.push(Beat { at_ns: 10 * SEC + rng.below(10) * SEC, acts: vec![Act::SelfMsg { delay_ns: rng.below(SEC) }, Act::QueryTree] });
         }
         spec.beats.sort_by_key(|b| b.at_ns);
+        // the tree is also looked at from the tear-down callback (relatives that were torn down before are still there)
+        if rng.chance(1, 3) {
+            spec.end_acts.push(Act::QueryTree);
+        }
         prog.modules.push(spec);
     }
     let mut order: Vec<u32> = (0..nmod as u32).collect();
@@ -485,7 +489,8 @@ pub fn gen_c14(rng: &mut Rng, _tier: Tier) -> NetProgram {
                 acts.push(Act::Send { gate: rng.below(2) as u32, delay_ns: if rng.chance(1, 5) { rng.below(SEC) } else { 0 }, body: rng.below(3) as u8 });
             }
             if rng.chance(1, 8) {
-                acts.push(Act::Shutdown { restart: (rng.below(3) * SEC) as i64, at: rng.chance(1, 2) });
+                // (now and then for good: the tear-down at the end then meets a module that is still down)
+                acts.push(Act::Shutdown { restart: if rng.chance(1, 5) { -1 } else { (rng.below(3) * SEC) as i64 }, at: rng.chance(1, 2) });
             }
             prog.modules[i].beats.push(Beat { at_ns: t, acts });
             t += if rng.chance(1, 3) { 0 } else { rng.below(2 * SEC) };
@@ -1031,6 +1036,8 @@ pub fn gen_c20(rng: &mut Rng, tier: Tier) -> NetProgram {
     for m in &mut prog.modules {
         m.tasks = crate::asy::gen_tasks_c20(rng);
     }
+    // task state that consults the global view of the simulation when it is dropped
+    prog.leases = rng.chance(1, 3);
     // messages caught in a closed ring circulate forever: such runs always end by a time limit
     if !prog.late_links.is_empty() {
         prog.end_mode = 0;
